@@ -14,6 +14,8 @@
    127 the delay check sends a notification for a transaction whose merkle proof is for a block of the chain
        (a confirmed transaction is not reported again: "only once"; shows e.g. when a stale copy of the
        unconfirmed set comes back at a restart)
+   128 after a restart the tracked set does not carry the first-seen times that were saved (the safe delay would be
+       measured from another moment)
    161 a safe report while the node is not in sync
    162 the conditions hold (vouching still known to the node, no conflict, delay elapsed, in sync) and
        a delay-check step runs, but the transaction is not reported safe   (bounded-time half: the
@@ -25,8 +27,8 @@ From V.proofs Require Import TxFlow_Proofs.
 Theorem C07_txflow :
   forall (delay : Z) (ops : list op),
     flow_valid delay ops = true ->
-    never_objects delay [101; 102; 103; 121; 122; 123; 124; 125; 126; 127; 161; 162] ops.
-Proof. exact (txflow_never_objects_any [101; 102; 103; 121; 122; 123; 124; 125; 126; 127; 161; 162]). Qed.
+    never_objects delay [101; 102; 103; 121; 122; 123; 124; 125; 126; 127; 128; 161; 162] ops.
+Proof. exact (txflow_never_objects_any [101; 102; 103; 121; 122; 123; 124; 125; 126; 127; 128; 161; 162]). Qed.
 Print Assumptions C07_txflow.
 
 (* Non-vacuity: a valid history with a three-way conflict, a safe report, a confirmation that
